@@ -113,10 +113,31 @@ def run(F, R, tier):
             ok = ok and same
         R.check(ok, "C19.R2", "C19.R2:%s:cap-edge-no-write" % es["id"], q.where(B, tests[0][0]) if tests else "-",
                 "on files.len() >= max_event_file_count nothing is written in that iteration; the count is of event_dir, the directory written to")
-    gfn = F.fns.get("proxy_agent_shared::misc_helpers::get_files")
+    # helper contract: the listing the cap is measured on contains every regular file of the directory (left-over .tmp files included)
+    from lib import contracts
+    gfn = R.anchor("proxy_agent_shared::misc_helpers::get_files", "C19.R2")
     if gfn:
         B = mir.Body(gfn, F)
         R.touched(gfn["id"])
+        okl, det = contracts.loop_keeps_all(B, [("is_file", False)])
+        rd = B.calls_named("std::fs::read_dir")
+        okd = len(rd) == 1 and all(o[0] == "param" and o[1] == "dir" for o in B.origins(rd[0][3]["args"][0]))
+        R.check(okl and okd, "C19.R2", "C19.R2:%s:contract" % gfn["id"], "%s:%s" % (gfn["file"], gfn["line"]),
+                "get_files(dir) lists every regular file of dir: %s" % det, "get_files no longer returns every regular file: %s" % det)
+
+    sfn = R.anchor("proxy_agent_shared::misc_helpers::search_files", "C19.R3")
+    if sfn:
+        B = mir.Body(sfn, F)
+        R.touched(sfn["id"])
+        okl, det = contracts.loop_keeps_all(B, [("is_file", False), ("is_match", False)])
+        rd = B.calls_named("std::fs::read_dir")
+        okd = len(rd) == 1 and all(o[0] == "param" and o[1] == "dir" for o in B.origins(rd[0][3]["args"][0]))
+        rx = B.calls_named("Regex::new")
+        okr = len(rx) == 1 and all(o[0] == "param" and o[1] == "search_regex_pattern" for o in B.origins(rx[0][3]["args"][0]))
+        srt = B.calls_named("slice::sort", "sort")
+        R.check(okl and okd and okr and bool(srt), "C19.R3", "C19.R3:%s:contract" % sfn["id"], "%s:%s" % (sfn["file"], sfn["line"]),
+                "search_files(dir, pattern) lists every regular file of dir whose name matches the pattern, sorted: %s" % det,
+                "search_files no longer returns every matching regular file (sorted): %s" % det)
 
     # ------------------------------------------------------------------ R3
     wa = R.anchor(AP + "proxy::authorization_rules::AuthorizationRulesForLogging::write_all", "C19.R3")
